@@ -153,25 +153,12 @@ func c02R2(p *Prog, r *Report) {
 			}
 		}
 		guardOK = func(e ast.Expr) bool {
-			ch, ok := chainOf(info, e)
-			if !ok || ch.Root != nil || len(ch.Links) < 2 || ch.Links[0].Name != "If" || ch.Links[1].Name != "Block" {
+			cond, _, ok := p.nilGuardOf(info, e)
+			if !ok {
 				return false
 			}
-			cond, ok := chainOf(info, ch.Links[0].Args[0])
-			if !ok || cond.Root == nil || cond.Has("Nil") == nil {
-				return false
-			}
-			op := cond.Has("Op")
-			if op == nil {
-				return false
-			}
-			if s, _ := constString(info, op.Args[0]); s != "!=" {
-				return false
-			}
-			// root: sourceID.Code
-			root := exprString(cond.Root)
 			for rcv := range derefRecv {
-				if root == rcv+".Code" {
+				if cond == rcv+".Code" {
 					return true
 				}
 			}
@@ -262,11 +249,30 @@ func c02R2(p *Prog, r *Report) {
 		}
 		if sel, ok := ast.Unparen(ifs.Cond).(*ast.SelectorExpr); ok && sel.Sel.Name == "Pointer" && isXType(info.TypeOf(sel.X)) {
 			addsCond, steps := false, false
-			ast.Inspect(ifs.Body, func(m ast.Node) bool {
+			isNilTest := func(info2 *types.Info, m ast.Node) bool {
 				if call, ok := m.(*ast.CallExpr); ok {
-					if ch, ok := chainOf(info, call); ok && ch.Has("Nil") != nil && ch.Has("Op") != nil {
-						if s, _ := constString(info, ch.Has("Op").Args[0]); s == "!=" {
-							addsCond = true
+					if ch, ok := chainOf(info2, call); ok && ch.Has("Nil") != nil && ch.Has("Op") != nil {
+						if s, _ := constString(info2, ch.Has("Op").Args[0]); s == "!=" {
+							return true
+						}
+					}
+				}
+				return false
+			}
+			ast.Inspect(ifs.Body, func(m ast.Node) bool {
+				if isNilTest(info, m) {
+					addsCond = true
+				}
+				// one level of own helpers (e.g. condition = andNotNil(condition, value))
+				if call, ok := m.(*ast.CallExpr); ok {
+					if f, ok := calleeObj(info, call).(*types.Func); ok {
+						if h := p.funcIdx[funcKey(f)]; h != nil && h.Pkg == fi.Pkg {
+							ast.Inspect(h.Decl, func(q ast.Node) bool {
+								if isNilTest(h.Pkg.TypesInfo, q) {
+									addsCond = true
+								}
+								return true
+							})
 						}
 					}
 				}
